@@ -251,6 +251,23 @@ Proof.
     apply ft_qas_bb_le in Hq'. exact Hq'.
 Qed.
 
+(** arithmetic of the two branches *)
+Lemma ftu_open_arith B S Q a fee :
+  fee <= a -> a <= S -> B <= S + Q -> fee <= S + Q - B -> B <= S - a + (Q + (a - fee)).
+Proof. lia. Qed.
+
+Lemma ftu_close_arith B S Q a fee bb' :
+  fee <= a -> a <= S -> B <= S + Q -> fee <= S + Q - B -> S + Q <= D ->
+  bb' <= B - (Q + (a - fee)) * rate_of B (S - a + (Q + (a - fee))) / D -> bb' <= S - a + 1.
+Proof.
+  intros H1 H2 H3 H4 H5 H6.
+  pose proof (ftu_open_arith B S Q a fee H1 H2 H3 H4) as Hc.
+  set (q := Q + (a - fee)) in *.
+  assert (K : B - q * rate_of B (S - a + q) / D <= (S - a + q - q) + 1).
+  { apply ft_close_dust; [exact Hc | lia | unfold q; lia]. }
+  set (x := q * rate_of B (S - a + q) / D) in *. clearbody x. lia.
+Qed.
+
 (** ** C05 for the bSei Unbond transaction *)
 
 (** what the sender is credited: the bSei claim recorded for the open batch *)
@@ -307,19 +324,18 @@ Proof.
   specialize (Hrep s' Hq').
   rewrite (rt_claims_b w h tb Hh Hb) in HB, HL. unfold LIM in HL.
   rewrite (rt_claims_b w' h' tb' Hh' Hb') in *.
-  assert (T1' : tk_supply tb' = tk_supply tb - a) by lia. rewrite T1' in *.
+  assert (T1' : tk_supply tb' = tk_supply tb - a) by (clear - T1; lia). rewrite T1' in *.
   destruct (ftu_fee_bounds h s (tk_supply tb) a) as (_ & F2 & _).
   set (fee := unbond_b_fee h s (tk_supply tb) a) in *.
-  set (q := cb_reqb (h_batch h) + (a - fee)) in *.
-  assert (Hc1 : hs_bb s <= tk_supply tb - a + q) by (unfold q; lia).
   assert (Hopen : epoch_over w h = false -> hs_bb s' <= tk_supply tb - a + cb_reqb (h_batch h')).
-  { intros Hep. destruct (Hno Hep) as (B1 & B2 & _). rewrite B1. cbn [cb_reqb]. lia. }
+  { intros Hep. destruct (Hno Hep) as (B1 & B2 & _). rewrite B1. cbn [cb_reqb].
+    eapply N.le_trans; [exact Hrep|]. rewrite B2.
+    apply ftu_open_arith; assumption. }
   assert (Hall : hs_bb s' <= tk_supply tb - a + cb_reqb (h_batch h') + 1).
-  { destruct (epoch_over w h) eqn:Hep; [|specialize (Hopen eq_refl); lia].
+  { destruct (epoch_over w h) eqn:Hep; [|specialize (Hopen eq_refl); clear - Hopen; lia].
     destruct (Hyes eq_refl) as (B1 & _ & B2 & _). rewrite B1. cbn [cb_reqb]. rewrite N.add_0_r.
-    assert (K : hs_bb s - q * rate_of (hs_bb s) (tk_supply tb - a + q) / D <= (tk_supply tb - a + q - q) + 1).
-    { apply ft_close_dust; [exact Hc1 | lia | unfold q; lia]. }
-    lia. }
+    apply (ftu_close_arith (hs_bb s) (tk_supply tb) (cb_reqb (h_batch h)) a fee); try assumption.
+    rewrite <- B2. exact Hrep. }
   split; [exact Hall|]. split; [exact Hopen|]. split; [exact Hrep'|]. split.
   - intros Hpos. destruct Hrep' as [Ex|Ez]; [|lia]. rewrite Ex.
     eapply N.le_trans; [apply (ft_rate_dust _ _ 1); exact Hall|]. rewrite N.mul_1_l. lia.
